@@ -6,6 +6,8 @@
 //! disagreement on such a line means implementation != specification.  `forest specx …` (answer
 //! `1`) cross-checks inside the model that its own result is handle-for-handle the specification
 //! with xot's survivor rule.
+//! Second round: `clone`, attribute / namespace `map_insert` / `map_remove`, the value setters and
+//! `text_content_set` are compared in the same way with `Model/FspecSpec2.lean`.
 //! Oracles (implementation only): the survivor of a text merge (property text: the earlier
 //! node), and conservation of character data by calls that destroy nothing.
 use crate::common::{enc, Rng, Sink};
@@ -26,8 +28,8 @@ fn build_ops(s: &mut Session, sink: &mut Sink, t: &GTree) -> usize {
 
 const OPS: &[(&str, usize)] = &[
     ("append", 12), ("prepend", 10), ("insert_after", 12), ("insert_before", 12), ("detach", 6), ("remove", 6),
-    ("replace", 8), ("unwrap", 6), ("wrap", 6), ("clone", 2), ("any_append", 2), ("map_insert", 2),
-    ("set_text", 2), ("text_content_set", 1), ("new", 10), ("cons", 1),
+    ("replace", 8), ("unwrap", 6), ("wrap", 6), ("clone", 3), ("any_append", 2), ("map_insert", 3), ("map_remove", 2),
+    ("set_text", 2), ("set_comment", 1), ("set_pi_data", 1), ("set_name", 1), ("text_content_set", 2), ("new", 10), ("cons", 1),
 ];
 
 fn pick_op(rng: &mut Rng) -> &'static str {
@@ -130,6 +132,8 @@ fn observe(s: &Session, op: &str, a: Node, b: Node) -> Pre {
 fn step(s: &mut Session, sink: &mut Sink, op: &str, req: &str, x: usize, y: usize, cons: &mut bool, restrict: bool) -> bool {
     sink.stat(&format!("op.{}", op));
     let spec_op = matches!(op, "append" | "prepend" | "insert_after" | "insert_before" | "detach" | "remove" | "replace" | "unwrap" | "wrap");
+    // calls compared with `Model/FspecSpec2.lean` (no text-merge oracle; proved without `Forest.Normal`)
+    let spec2_op = matches!(op, "clone" | "map_insert" | "map_remove" | "set_text" | "set_comment" | "set_pi_data" | "set_name" | "text_content_set");
     let nonnormal = *cons && has_adjacent_text(s);
     let pre = if spec_op { Some(observe(s, op, s.nodes[x], s.nodes[y])) } else { None };
     let mark = sink.lines.len();
@@ -140,6 +144,15 @@ fn step(s: &mut Session, sink: &mut Sink, op: &str, req: &str, x: usize, y: usiz
     }
     if op == "cons" {
         *cons = req.ends_with('1');
+    }
+    if spec2_op && resp.starts_with("ok") {
+        // the real post-state against the specification applied to the model's pre-state, and the
+        // model's own result handle for handle
+        let content = erase_labels(&s.dump());
+        sink.lines.insert(mark, (format!("forest spec {}", req), content));
+        sink.lines.insert(mark + 1, (format!("forest specx {}", req), "1".into()));
+        sink.stat("spec.checked");
+        sink.stat(&format!("spec.checked.{}", op));
     }
     if spec_op && resp.starts_with("ok") {
         let pre = pre.unwrap();
@@ -157,6 +170,18 @@ fn step(s: &mut Session, sink: &mut Sink, op: &str, req: &str, x: usize, y: usiz
             };
             sink.fail("C05", &sig, &format!("{}: consolidation is on and the forest had no adjacent text nodes, afterwards it has", req), &s.history);
         }
+        // the PAIR reading of the consolidation clause (`Model/FspecSpec3.lean`) is defined for
+        // every forest: compared on every successful move / remove / detach, also when the
+        // pre-state already holds adjacent text nodes
+        if matches!(op, "append" | "prepend" | "insert_after" | "insert_before" | "detach" | "remove") {
+            let content = erase_labels(&s.dump());
+            sink.lines.insert(mark, (format!("forest specp {}", req), content));
+            sink.lines.insert(mark + 1, (format!("forest specpx {}", req), "1".into()));
+            sink.stat("specp.checked");
+            if nonnormal {
+                sink.stat("specp.checked.prestate-has-adjacent-text");
+            }
+        }
         if (nonnormal && restrict) || left_adjacent {
             sink.stat("spec.skipped");
         } else {
@@ -167,9 +192,7 @@ fn step(s: &mut Session, sink: &mut Sink, op: &str, req: &str, x: usize, y: usiz
             // handle-for-handle cross-check inside the model, for the calls with an exact
             // theorem (for `replace` next to the replacing node xot keeps the replacing
             // text node, i.e. the survivor rule is not "the moved node never survives")
-            if op != "replace" {
-                sink.lines.insert(mark + 1, (format!("forest specx {}", req), "1".into()));
-            }
+            sink.lines.insert(mark + 1, (format!("forest specx {}", req), "1".into()));
             sink.stat("spec.checked");
             sink.stat(&format!("spec.checked.{}", op));
         }
@@ -247,6 +270,8 @@ pub fn one_history(rng: &mut Rng, sink: &mut Sink, n_ops: usize, allow_cons_off:
         let b = *rng.pick(&live);
         let elems: Vec<usize> = live.iter().copied().filter(|&l| s.xot.is_element(s.nodes[l])).collect();
         let texts: Vec<usize> = live.iter().copied().filter(|&l| s.xot.is_text(s.nodes[l])).collect();
+        let comments: Vec<usize> = live.iter().copied().filter(|&l| s.xot.is_comment(s.nodes[l])).collect();
+        let pis: Vec<usize> = live.iter().copied().filter(|&l| s.xot.is_processing_instruction(s.nodes[l])).collect();
         let e = if elems.is_empty() || rng.chance(1, 8) { a } else { *rng.pick(&elems) };
         // bias the moved node towards text nodes: merges are the interesting part
         let mut b = if !texts.is_empty() && rng.chance(1, 3) { *rng.pick(&texts) } else { b };
@@ -275,8 +300,24 @@ pub fn one_history(rng: &mut Rng, sink: &mut Sink, n_ops: usize, allow_cons_off:
             "insert_after" | "insert_before" | "replace" => (format!("{} {} {}", op, a, b), a, b),
             "detach" | "remove" | "unwrap" | "clone" => (format!("{} {}", op, a), a, a),
             "wrap" => (format!("wrap {} {}", a, rng.pick(&[2usize, 6])), a, a),
-            "map_insert" => (format!("map_insert attr {} {} {}", e, rng.pick(&[2usize, 3, 0, 6]), enc(&small_text(rng))), e, e),
-            "set_text" => (format!("set_text {} {}", a, enc(&small_text(rng))), a, a),
+            "map_insert" => {
+                if rng.chance(2, 3) {
+                    (format!("map_insert attr {} {} {}", e, rng.pick(&[2usize, 3, 0, 6]), enc(&small_text(rng))), e, e)
+                } else {
+                    (format!("map_insert ns {} {} {}", e, rng.pick(&[0usize, 2, 3]), rng.pick(&[0usize, 2, 3])), e, e)
+                }
+            }
+            "map_remove" => {
+                if rng.chance(2, 3) {
+                    (format!("map_remove attr {} {}", e, rng.pick(&[2usize, 3, 0, 6])), e, e)
+                } else {
+                    (format!("map_remove ns {} {}", e, rng.pick(&[0usize, 2, 3])), e, e)
+                }
+            }
+            "set_text" => (format!("set_text {} {}", if !texts.is_empty() && rng.chance(2, 3) { *rng.pick(&texts) } else { a }, enc(&small_text(rng))), a, a),
+            "set_comment" => (format!("set_comment {} {}", if !comments.is_empty() && rng.chance(3, 4) { *rng.pick(&comments) } else { a }, enc(&small_text(rng))), a, a),
+            "set_pi_data" => (format!("set_pi_data {} {}", if !pis.is_empty() && rng.chance(3, 4) { *rng.pick(&pis) } else { a }, if rng.chance(1, 3) { "-".to_string() } else { enc(&small_text(rng)) }), a, a),
+            "set_name" => (format!("set_name {} {}", e, rng.pick(&[2usize, 6, 9])), e, e),
             "text_content_set" => (format!("text_content_set {} {}", e, enc(&small_text(rng))), e, e),
             "new" => (format!("new {}", GTree::leaf(gen_value(rng)).wire()), a, a),
             "cons" => {
@@ -328,7 +369,7 @@ fn exhaustive(sink: &mut Sink) {
     }
     let seconds = vec![GTree::leaf(GValue::Text("z".into())), GTree::leaf(GValue::Element(6))];
     const OPS2: &[&str] = &["append", "prepend", "insert_after", "insert_before", "replace"];
-    const OPS1: &[&str] = &["detach", "remove", "unwrap", "wrap"];
+    const OPS1: &[&str] = &["detach", "remove", "unwrap", "wrap", "clone", "set_text", "text_content_set", "map_insert", "map_remove"];
     for kids in &kid_lists {
         for second in &seconds {
             let forest = vec![GTree::new(GValue::Element(2), kids.clone()), second.clone()];
@@ -342,10 +383,76 @@ fn exhaustive(sink: &mut Sink) {
                 }
                 let req = match op {
                     "wrap" => format!("wrap {} 6", a),
-                    "detach" | "remove" | "unwrap" => format!("{} {}", op, a),
+                    "detach" | "remove" | "unwrap" | "clone" => format!("{} {}", op, a),
+                    "set_text" | "text_content_set" => format!("{} {} {}", op, a, enc("k")),
+                    "map_insert" => format!("map_insert attr {} 3 {}", a, enc("v")),
+                    "map_remove" => format!("map_remove attr {} 3", a),
                     _ => format!("{} {} {}", op, a, b),
                 };
                 sink.stat("exhaustive.cases");
+                step(&mut s, sink, op, &req, a, b, &mut cons, true);
+                s.exec(sink, "dump");
+            };
+            for a in 0..n {
+                for op in OPS1 {
+                    run(op, a, a);
+                }
+                for b in 0..n {
+                    for op in OPS2 {
+                        run(op, a, b);
+                    }
+                }
+            }
+        }
+    }
+}
+
+/// Forests that hold ADJACENT text nodes while consolidation is on (built with consolidation
+/// off, then switched on): one element with up to four children drawn from {text, empty
+/// element}, plus a second parentless tree; all (operation, node, node) triples of the moves,
+/// `remove` and `detach`.  Compared with the PAIR reading of the consolidation clause
+/// (`Model/FspecSpec3.lean`).
+fn exhaustive_adjacent_text(sink: &mut Sink) {
+    let mut kid_lists: Vec<Vec<GTree>> = vec![];
+    for len in 2..=4usize {
+        for mask in 0..(1u32 << len) {
+            let kids: Vec<GTree> = (0..len)
+                .map(|i| {
+                    if mask & (1 << i) != 0 {
+                        GTree::leaf(GValue::Text(((b'a' + i as u8) as char).to_string()))
+                    } else {
+                        GTree::leaf(GValue::Element(3))
+                    }
+                })
+                .collect();
+            // at least one pair of adjacent text nodes
+            if kids.windows(2).any(|w| matches!(w[0].v, GValue::Text(_)) && matches!(w[1].v, GValue::Text(_))) {
+                kid_lists.push(kids);
+            }
+        }
+    }
+    let seconds = vec![GTree::leaf(GValue::Text("z".into())), GTree::leaf(GValue::Element(6))];
+    const OPS2: &[&str] = &["append", "prepend", "insert_after", "insert_before"];
+    const OPS1: &[&str] = &["detach", "remove"];
+    for kids in &kid_lists {
+        for second in &seconds {
+            let forest = vec![GTree::new(GValue::Element(2), kids.clone()), second.clone()];
+            let n: usize = forest.iter().map(|t| t.size()).sum();
+            let mut run = |op: &str, a: usize, b: usize| {
+                let mut s = Session::new();
+                let mut cons = false;
+                s.exec(sink, "reset");
+                s.exec(sink, "cons 0");
+                for t in &forest {
+                    build_ops(&mut s, sink, t);
+                }
+                s.exec(sink, "cons 1");
+                cons = cons || true;
+                let req = match op {
+                    "detach" | "remove" => format!("{} {}", op, a),
+                    _ => format!("{} {} {}", op, a, b),
+                };
+                sink.stat("exhaustive-adjacent.cases");
                 step(&mut s, sink, op, &req, a, b, &mut cons, true);
                 s.exec(sink, "dump");
             };
@@ -371,6 +478,9 @@ pub fn run(seed: u64, count: usize, tier: &str, sink: &mut Sink) {
     let restrict = tier != "explore";
     if tier == "thorough" {
         exhaustive(sink);
+    }
+    if tier != "search" {
+        exhaustive_adjacent_text(sink);
     }
     for i in 0..count {
         one_history(&mut rng, sink, n_ops, i % 4 == 3, restrict);
